@@ -138,5 +138,7 @@ def run(ck, tier):
         ck.obligations.append(('R4',) + tuple(o[1:]))
     for f in sub.findings:
         ck.finding('R4', f.construct, f.detail, f.loc, f.message)
+    from .c18 import r6_table_isolation
+    ck.guard(r6_table_isolation, ck, cx, 'R6')
     ck.assume('non-interference between units as a run-time fact follows from R2 + C05 R2 and is not decided itself')
     return cx.idx
